@@ -51,8 +51,10 @@ def subst_key(k, mapping: Dict[object, object]):
         return mapping[k]
     if isinstance(k, tuple):
         if k and k[0] == 'rf':
+            # nested normal forms keep the ('rf', ...) shape the algebra gives them (rf_pow, rf_minmax ... store
+            # RF.key(), never the bare atom): otherwise equal values compare unequal after a substitution
             rf = rf_from_key(k)
-            return key_of(subst_rf(rf, mapping))
+            return subst_rf(rf, mapping).key()
         return tuple(subst_key(x, mapping) for x in k)
     if isinstance(k, frozenset):
         return frozenset(subst_key(x, mapping) for x in k)
